@@ -20,6 +20,7 @@ package classdef
 
 import (
 	"fmt"
+	"math"
 	"sort"
 
 	"seehuhn.de/go/sfnt/glyph"
@@ -158,7 +159,12 @@ func (info Table) getEncInfo() *encInfo {
 		}
 	}
 
-	format1Size := 6 + 2*(int(maxGid)-int(minGid)+1)
+	numGlyphs := int(maxGid) - int(minGid) + 1
+	format1Size := 6 + 2*numGlyphs
+	if numGlyphs > 0xFFFF {
+		// The glyph count of format 1 is a 16-bit field.
+		format1Size = math.MaxInt
+	}
 
 	segCount := 0
 	segStart := -1
@@ -225,6 +231,9 @@ func (info Table) Append(buf []byte) []byte {
 	}
 
 	segCount := (encInfo.format2Size - 4) / 6
+	if segCount > 0xFFFF {
+		panic("classdef: too many class ranges")
+	}
 	buf = append(buf, 0, 2, byte(segCount>>8), byte(segCount))
 	segStart := -1
 	var segClass uint16
